@@ -207,6 +207,22 @@ PLAN['C02'] = {
 }
 del NOT_APPLICABLE['C02']
 
+PLAN['C06'] = {
+    'level': 'other',
+    'technique': 'contract-based deductive verification (Verus) of the per-tile recursion of the 2D renderer - Worker::render_tile_recurse and Worker::render_tile_pixels of fidget-raster/src/pixel.rs and the tile helpers Tile::{new, add}, TileSizesRef::{index, get, pixel_offset} of fidget-raster/src/lib.rs - on their real text, generic over the Function, with the three component properties the renderer composes (interval enclosure, simplification, bulk evaluation through the shape wrappers) as stated contracts of trusted stand-ins; bounded native contract runner (render vs per-pixel Context::eval) for the whole pipeline',
+    'level_text': 'Partial. Proved unbounded (unit raster; every tile-size list TileSizes::new accepts with root tile <= 4096, every depth, every tile position inside a root tile, every previous image content, pixel-perfect or not): after render_tile_recurse EVERY pixel of the tile holds the value of the ORIGINAL shape function at that pixel\'s sample position, or (unless pixel-perfect) a fill whose inside flag is the sign of that value, and NO pixel outside the tile is written; so skipping whole tiles on interval evidence and evaluating simplified tapes inside tiles is unobservable, given the three hypotheses below. No panic in the recursion (indices, unreachable!() arms, usize arithmetic). NOT proved: the hypotheses themselves at this call site (they are the claimed properties C03+C14, C04, C01/C02+C14, each with its own check), render_tiles (tile generation, rayon workers), Worker::new / render_tile, the assembly of root tiles into the image in render, TileSizesRef::new, the RawDistancePixel bit packing, the screen-to-world matrix: bounded contract render2d only (all of these run natively there, every pixel compared with Context::eval).',
+    'level_note': 'Trusted: Verus+Z3; the stand-ins of unit raster (ShapeTracingEval / ShapeBulkEval / RenderHandle contracts = the assumed component properties; nalgebra Point2/Vector2 as two-field structs; Image as its data vector; fill_range as a verified model of slicing + fill); six float axioms (exact and monotone usize -> f32 conversion below 2^24, order chaining, comparison operators equal their specification).',
+    'legs': [leg_verus('raster'), leg_bounded('render2d')],
+    'cex': ['render2d'],
+    'explanation': 'The postcondition tile_ok / frame of the recursion is stated about the handle\'s original function; the recursion passes simplified handles down and the proof transfers their pixels back through the agreement hypothesis on the tile\'s own box (units/raster/__init__.py).',
+    'assumptions': ['C03 + C14 at the call site: the sign decided by the interval result on the tile\'s box is the sign of the function at every pixel of the tile; a returned trace is valid on that box',
+                    'C04 at the call site: RenderHandle::simplify returns a function that agrees with its parent on the traced box, and the parent keeps its function (cached child handles)',
+                    'C01/C02 + C14 at the call site: the bulk evaluator returns, per sample, the function at that sample',
+                    'pixel coordinates below 2^24 (f32 conversion exact); z is a number',
+                    'render_tiles / render (tile list, per-thread workers, assembly into the image) and voxel rendering are outside the unit'],
+}
+del NOT_APPLICABLE['C06']
+
 PLAN['C10'] = {
     'level': 'proof',
     'technique': 'contract-based deductive verification (Verus): RegisterAllocator::reset establishes exactly the abstract view of new (`fresh`), simplify\'s contract is independent of the previous workspace/tape contents, the allocator theorem holds from arbitrary initial slot contents; bounded native contract runner for evaluator/storage reuse',
